@@ -283,6 +283,21 @@ func RunStraddle(kind string) (run *ParkRun, ok bool, err error) {
 	run.Init, run.Chain = gen(tail, nInit, 1), gen(tail+nInit, nChain, nInit+1)
 	obs := func(act string, ret int) {
 		o := Obs{Ret: ret}
+		// the store's flush loop runs on its own (real time): a header handed to it shows up under GetByHeight a
+		// moment before Head() has moved over it; a genuine gap stays
+		for try := 0; try < 50; try++ {
+			h, err := st.Head(ctx)
+			if err != nil {
+				break
+			}
+			c2, cancel2 := context.WithTimeout(context.Background(), 5*time.Millisecond)
+			a, err2 := st.GetByHeight(c2, h.Height()+1)
+			cancel2()
+			if err2 != nil || a == nil {
+				break
+			}
+			time.Sleep(20 * time.Millisecond)
+		}
 		if h, err := st.Head(ctx); err == nil {
 			o.Head = h.Height()
 			o.HeadID = reg.ID(h.Hash())
